@@ -4,6 +4,7 @@
    executable model (vm_compute). *)
 From Coq Require Import ZArith List.
 From DbftV Require Import Gates NoPanic P10 P12 Replay D1 S1 SignLApi.
+From DbftV Require Spec_dbft Spec_antiMEV.
 Open Scope Z_scope.
 
 Definition cfg0 := mkCfg 1 (-1) false.
@@ -113,3 +114,10 @@ Proof.
   destruct (lock_okb_sound s1_cfg (firstn 8 s1) (fst (nth 8 s1 (EReset 0, []))) (snd (nth 8 s1 (EReset 0, []))) 0 ltac:(vm_compute; reflexivity))
     as (st & g & st' & tr & H). eauto 10.
 Qed.
+
+(* the shipped constants of the TLA+ models satisfy the translated ASSUME (the hypothesis of the C20 theorems) *)
+Example shipped_constants_satisfy_the_ASSUME :
+  Spec_dbft.d_ASSUME [3] 1 [] [0;1;2;3] = true /\ Spec_dbft.d_ASSUME [] 1 [3] [0;1;2;3] = true /\
+  Spec_antiMEV.d_ASSUME [3] 1 [] [0;1;2;3] = true /\ Spec_antiMEV.d_ASSUME [] 1 [] [0;1;2;3] = true /\
+  Spec_dbft.d_ASSUME [3] 1 [2] [0;1;2;3] = false.
+Proof. vm_compute. repeat split; reflexivity. Qed.
